@@ -7,7 +7,10 @@ CONSTANTS
   CountAll = FALSE
   InitISRs = {{"r1"}, {"r1", "r2"}, {"r1", "r2", "r3"}, {"r1", "r2", "r3", "r4"}}
   L0 = "r1"
-  PairSels = {"cur", "sl", "prev", "next", "pep", "first"}
-  MaxOps = 16
-  MaxPend = 0
+  PairSels = {"cur", "first"}
+  MaxOps = 6
+  MaxPend = 2
+INVARIANTS TypeOK C07_LeaderInISR StatusLive WitnessesAreGood
+PROPERTIES StepsOK
+VIEW MCView
 CHECK_DEADLOCK FALSE
